@@ -175,7 +175,7 @@ impl Monitor for C16 {
                 }
                 let mut prev = 0u64;
                 let mut nvar = 0u64;
-                for n in [0usize, 1, 2, 3, njobs.saturating_sub(1), njobs, njobs + 2] {
+                for n in [0usize, 1, 2, 3, njobs.saturating_sub(1), njobs, njobs + 2, usize::MAX] {
                     let got = u64::from(rb.service_needed_by_n_jobs(d, n));
                     let want: u64 = all_costs.iter().take(n).sum();
                     nvar += 1;
@@ -202,7 +202,7 @@ impl Monitor for C16 {
                 }
                 let mut npc = 0u64;
                 if let Some(a) = arb {
-                    for n in [0usize, 1, 2, 5] {
+                    for n in [0usize, 1, 2, 5, usize::MAX] {
                         let got = u64::from(a.service_needed_by_n_jobs_per_component(d, n));
                         let want: u64 = per_part_costs
                             .iter()
@@ -222,9 +222,11 @@ impl Monitor for C16 {
             });
             match r {
                 Err(c) => {
-                    // ExtrapolatingCurve-backed models can legitimately need many loop iterations; anything else is C20's
-                    rep.count("library_panicked_or_out_of_fuel (decided by C20)", 1);
-                    let _ = c;
+                    // no value at all where the recomputation from the parts is defined
+                    rep.violation(
+                        format!("C16 wrapper={} kind={} class={}", shape_name, c.kind, c.class()),
+                        jobj! {"parts_[arrival,cost]" => pj.clone(), "delta" => dl, "caught" => c.to_json()},
+                    );
                 }
                 Ok((out, njobs, nvar, npc)) => {
                     rep.count("service_needed_compared", 1);
